@@ -90,8 +90,9 @@ func shortSSIDSeed(k keyChoice, ssid func(seed string) []byte) (string, bool) {
 }
 
 type c01Case struct {
-	OtherGlobal bool // the process-global curve is set to edwards25519 although the parameters carry secp256k1
-	ShortSSID   bool // dealer keys only: search for a key whose session id has a leading zero byte
+	IDStyle     string // "", "blank", "shared": free-form id strings of the parties
+	OtherGlobal bool   // the process-global curve is set to edwards25519 although the parameters carry secp256k1
+	ShortSSID   bool   // dealer keys only: search for a key whose session id has a leading zero byte
 	Key         keyChoice
 	Signers     []int
 	Digest      H
@@ -167,6 +168,7 @@ func genC01(t *rapid.T) c01Case {
 	c.Sched = genSched(t, len(c.Signers), schedNoDup)
 	c.ShortSSID = c.Key.Src == "dealer" && rapid.IntRange(0, 3).Draw(t, "shortssid") == 0
 	c.OtherGlobal = rapid.IntRange(0, 2).Draw(t, "otherGlobal") == 0
+	c.IDStyle = rapid.SampledFrom([]string{"", "", "", "blank", "shared"}).Draw(t, "idStyle")
 	return c
 }
 
@@ -246,13 +248,17 @@ func planSteer(c c01Case, nSigners int, priv *big.Int, digest *big.Int) steerPla
 	return plan
 }
 
-func runC01(c c01Case) ev.Outcome {
-	out := ev.Outcome{}
+func runC01(c c01Case) (out ev.Outcome) {
+	out = ev.Outcome{}
 	fail := func(sig, f string, a ...interface{}) ev.Outcome {
 		out.Err, out.Sig = fmt.Errorf(f, a...), sig
 		return out
 	}
 	setGlobalCurve(false, c.OtherGlobal)
+	sim.IDStyle = c.IDStyle
+	if c.IDStyle != "" {
+		defer func() { out.Label += " id-strings=" + c.IDStyle }()
+	}
 	short := false
 	if c.ShortSSID && !c.Refusal && c.Key.Src == "dealer" {
 		c.Key.Seed, short = shortSSIDSeed(c.Key, func(sd string) []byte {
